@@ -1,7 +1,7 @@
 (* C17 — URI, query-string and cookie codecs round-trip.  Property theorems only. *)
 From Coq Require Import String.
 From Coq Require Import List Strings.Byte NArith Bool.
-Require Import Bytes Show Tables Codec CodecProofs Range Cookie CookieProofs.
+Require Import Bytes Show Res Tables Codec CodecProofs Range Cookie CookieProofs Norm NormTop UriSplit Uri UriProofs.
 Import ListNotations.
 
 (* Decoding a quoted argument gives the argument back, for every byte string. *)
@@ -48,4 +48,32 @@ Example C17_cookie_nonvacuous :
   cookie_parse_script [B "sid=a b; Max-Age=60; path=/x; HTTPONLY; SameSite=lax; junk"] =
   B "OK k=736964 v=612062 ma=60 ex= d= p=2f78 h=1 s=0 ss=2 pt=0 | " ++
   hex_of (B "sid=a b; max-age=60; path=/x; HttpOnly; SameSite=Lax").
+Proof. vm_compute. reflexivity. Qed.
+
+(* URIs (Model/Uri.v: URI.Parse(nil, s) = getScheme / splitHostURI / user info / '?' and '#' split / normalizePath,
+   and URI.FullURI with the query as a raw string; compared with the real URI on arbitrary texts by unit
+   c17.urimodel).  For EVERY URI whose scheme is a valid lower-case scheme, whose host is lower-case and has no
+   '/', '@' or control byte, whose path is one that normalizePath produces (`contained`: C07_contained shows
+   every path set through SetPath is), whose query string has no '#' and no control byte and whose fragment
+   has no control byte: parsing the full string form returns exactly that URI - scheme, host, path, query string,
+   fragment, no user info.  (A control byte in the fragment or raw query string breaks the round trip: the
+   known finding of C17.) *)
+Theorem C17_uri_roundtrip : forall u : uri, wf_uri u -> uri_parse (uri_full u) = Ok u.
+Proof. exact uri_roundtrip. Qed.
+Print Assumptions C17_uri_roundtrip.
+
+(* ... and formatting the parsed URI again is a fixed point *)
+Theorem C17_uri_format_fixed_point : forall u : uri, wf_uri u ->
+  match uri_parse (uri_full u) with Ok u' => uri_full u' = uri_full u | _ => False end.
+Proof. exact uri_format_fixed_point. Qed.
+
+(* the path of a URI set through SetPath is always of that form, whatever was passed *)
+Theorem C17_set_path_gives_a_contained_path : forall src : bs, exists p, normalize_path src = Some p /\ contained p.
+Proof. exact normalize_path_contained. Qed.
+
+Example C17_uri_nonvacuous :
+  uri_parse_script [B "HTTPS://User:pw@Example.COM/a/./b/../c%20d?x=1#f?g"] =
+  B "OK s=" ++ hex_of (B "https") ++ B " h=" ++ hex_of (B "example.com") ++ B " u=" ++ hex_of (B "User") ++ B " pw=" ++ hex_of (B "pw") ++
+  B " p=" ++ hex_of (B "/a/c d") ++ B " q=" ++ hex_of (B "x=1") ++ B " f=" ++ hex_of (B "f?g") ++ B " | " ++
+  hex_of (B "https://example.com/a/c%20d?x=1#f?g").
 Proof. vm_compute. reflexivity. Qed.
